@@ -115,6 +115,16 @@ type verifQS struct {
 	A string `json:"a,string"`
 }
 
+// a map type whose value receiver implements json.Marshaler: encoding/json calls the method
+// even for a nil map
+type verifMapM map[string]int
+
+func (m verifMapM) MarshalJSON() ([]byte, error) { return []byte(`{"n":0}`), nil }
+
+type verifMapT map[string]int
+
+func (m verifMapT) MarshalText() ([]byte, error) { return []byte("labels"), nil }
+
 func TestVerifDump(t *testing.T) {
 	if os.Getenv("VERIF_DUMP_DIR") == "" {
 		t.Skip("no VERIF_DUMP_DIR")
@@ -122,7 +132,7 @@ func TestVerifDump(t *testing.T) {
 	verifInitSyms()
 	types := map[string]interface{}{
 		"string": "", "slice_string": []string{}, "qstring": verifQS{}, "int64": int64(0), "bool": false,
-		"float64": float64(0), "bytes": []byte{}, "map_str_int": map[string]int{},
+		"float64": float64(0), "bytes": []byte{}, "map_str_int": map[string]int{}, "map_marshaler": verifMapM{}, "map_textmarshaler": verifMapT{},
 		"int8": int8(0), "int16": int16(0), "int32": int32(0), "uint8": uint8(0), "uint16": uint16(0), "uint32": uint32(0), "uint64": uint64(0), "float32": float32(0),
 	}
 	for name, v := range types {
